@@ -206,6 +206,15 @@ func cmdCheck(args []string) int {
 				kept = append(kept, o)
 			} else if i < lastSel && o.FactIdx >= 0 {
 				o.Support = true
+				// an obligation the property definition names as outside its reach ("skip") is not attempted: it counts
+				// as a failed supporting obligation, so nothing selected may rest on it
+				for _, s := range def.Select {
+					if s.Skip != "" && (s.Func == "" || expandKey(s.Func) == r.Name || strings.HasPrefix(r.Name, expandKey(s.Func)+"{")) {
+						if ok, _ := regexp.MatchString(s.Skip, o.Name); ok {
+							o.Result = "not-attempted"
+						}
+					}
+				}
 				kept = append(kept, o)
 			}
 		}
